@@ -70,6 +70,7 @@ class LoopSpec:
     desugar: Optional[str]
     block: ClauseBlock
     vc_line: int
+    iterexpr: Optional[str] = None
 
 
 @dataclass
@@ -222,18 +223,21 @@ def parse_vc(path: str, text: str) -> List[FnContract]:
         elif name == 'loop':
             a = _split_quoted(args)
             k = int(a[0])
-            ghost = desugar = None
+            ghost = desugar = iterexpr = None
             i = 1
             while i < len(a):
                 if a[i] == 'ghost':
                     ghost = a[i + 1]
+                    i += 2
+                elif a[i] == 'iter':
+                    iterexpr = _unq(a[i + 1])
                     i += 2
                 elif a[i] == 'desugar':
                     desugar = a[i + 1]
                     i += 2
                 else:
                     raise ContractError('%s:%d: bad @loop arg %r' % (path, ln0, a[i]))
-            cur.loops[k] = LoopSpec(k, ghost, desugar, _parse_clause_block(body, path, cur.serves, 'loop%d.' % k), ln0)
+            cur.loops[k] = LoopSpec(k, ghost, desugar, _parse_clause_block(body, path, cur.serves, 'loop%d.' % k), ln0, iterexpr)
         elif name == 'closure':
             a = _split_quoted(args)
             k = int(a[0])
